@@ -115,6 +115,13 @@ def rule_node_sem(ctx: RuleContext, p: Program, rid: str, max_items: int = 3) ->
                     return isinstance(v, slice)
                 if t.rsplit('.', 1)[-1] in ('Iterable', 'Collection', 'Sequence'):
                     return isinstance(v, (list, tuple, range, possem._It))
+                last_ = t.rsplit('.', 1)[-1]
+                if last_ in ('RawTreeModel', 'RawModel', 'RawTokenModel') and isinstance(v, possem.Obj):
+                    # the items of this rule are tree models (two tokens each); the tokens of the mock document are token models
+                    if v.cls == 'Item':
+                        return last_ in ('RawTreeModel', 'RawModel')
+                    if v.cls == 'Tok':
+                        return last_ in ('RawTokenModel', 'RawModel')
                 raise self.err(e, 'isinstance against a class this rule does not model')
             if isinstance(e, ast.Subscript) and not (isinstance(e.value, ast.Name) and e.value.id not in env) and self.expr(e.value, env) is self.me:
                 i = self.expr(e.slice, env)
